@@ -69,6 +69,7 @@ type mcastSock struct {
 	pending bool
 	cands   []mcastBuf // buffers designated since the last completion (oldest first)
 	rmem    uint32
+	drops   uint32
 }
 
 type mcastWorld struct {
@@ -154,6 +155,17 @@ func (mw *mcastWorld) addrPortTok(a netip.AddrPort) string {
 	return mw.addrTok(a.Addr().As4(), int(a.Port()))
 }
 
+func mcastDrops(fd int) uint32 {
+	var v [9]uint32
+	l := uint32(unsafe.Sizeof(v))
+	_, _, e := syscall.Syscall6(syscall.SYS_GETSOCKOPT, uintptr(fd), syscall.SOL_SOCKET, unix.SO_MEMINFO,
+		uintptr(unsafe.Pointer(&v[0])), uintptr(unsafe.Pointer(&l)), 0)
+	if e != 0 {
+		return 0
+	}
+	return v[8] /* SK_MEMINFO_DROPS */
+}
+
 func mcastMeminfo(fd int) (rmem uint32, ok bool) {
 	var v [9]uint32
 	l := uint32(unsafe.Sizeof(v))
@@ -229,7 +241,11 @@ func (mw *mcastWorld) register(s *mcastSock) {
 	if _, known := mw.ports[port]; !known {
 		mw.ports[port] = 10 + s.id
 	}
+	// room for the bursts the generator produces (a 65507-byte datagram over eth0 arrives as 47 fragments, ~110 kB of
+	// socket memory): receive-buffer overflow is not part of the model
+	_ = syscall.SetsockoptInt(s.ofd, syscall.SOL_SOCKET, syscall.SO_RCVBUF, 4<<20)
 	s.rmem, _ = mcastMeminfo(s.ofd)
+	s.drops = mcastDrops(s.ofd)
 	mw.socks[s.id] = s
 }
 
@@ -315,6 +331,10 @@ func (mw *mcastWorld) arrivals() string {
 				out = append(out, fmt.Sprint(id))
 			}
 			s.rmem = v
+		}
+		if d := mcastDrops(s.ofd); d != s.drops {
+			fmt.Fprintf(mw.w, "? overflow %d\n", id)
+			s.drops = d
 		}
 	}
 	if len(out) == 0 {
